@@ -34,6 +34,9 @@ def do_replay(prop, path):
     elif rp.get("kind") == "cable_wire_name":
         from vf.e1.edif_jobs import replay_cable_wire_name
         viol, txt = replay_cable_wire_name(rp)
+    elif rp.get("kind") == "trace":
+        from vf.e1.hier_jobs import replay_trace
+        viol, txt = replay_trace(rp)
     elif rp.get("kind") == "policy":
         from vf.e1.parser_jobs import replay_policy
         viol, txt = replay_policy(rp)
